@@ -45,6 +45,19 @@ def check_orduse(crate, rep, cfg):
     ok = ok and n_guarded >= 2 and unguarded <= 1      # the one unguarded Ok is the empty-input early return
     rep.add("C16.ORDUSE", "C16.ORDUSE:sort:comparable-before-ok", ok, sort.where(0), "both non-empty Ok returns of sort are dominated by an ensure_comparable call whose Err is "
             "propagated (%d guarded, %d early return)" % (n_guarded, unguarded) + ("" if ok else " — VIOLATED"))
+    ec0 = crate.one("filters::ensure_comparable")
+    adjacent_form = bool(ec0.locals_named("prev")) and len(ec0.loops()) == 1
+    if adjacent_form:
+        # ensure_comparable only inspects adjacent pairs (and skips pairs with none): that is sound only on the SORTED sequence,
+        # where every kind is contiguous — so each call must come after the sort_by of the same arm
+        sort_blocks = [bb for bb, t in sort.calls() if callee_def(t).endswith("::sort_by")]
+        k = 0
+        for eb in ens:
+            after = any(sort.dominates(sb, eb) for sb in sort_blocks)
+            rep.add("C16.ORDUSE", "C16.ORDUSE:sort:comparable-check-after-sort#%d" % k, after, sort.where(eb), "the adjacent-pair comparability check runs on the sorted sequence "
+                    "(dominated by the sort_by of its arm)" + ("" if after else " — VIOLATED: on unsorted input a none between two incomparable values hides them; sort "
+                                                               "returns instead of refusing"))
+            k += 1
     ec = crate.one("filters::ensure_comparable")
     uses = any(callee_def(t) == "std::cmp::PartialOrd::partial_cmp" and "value::Value" in (t["f"].get("self_ty") or "") for bb, t in ec.calls())
     rep.add("C16.ORDUSE", "C16.ORDUSE:ensure_comparable:partial_cmp", uses, ec.where(0), "ensure_comparable decides with Value::partial_cmp (the relation behind `<`)" + ("" if uses else " — VIOLATED"))
